@@ -119,49 +119,65 @@ class PB(object):
         self.playback_outputs = [('play', r)]
 
 
-def run_once(ids, beh, dedicated, rate, timeout, keep, consume):
+def data_for(data, r):
+    """the comparison data of recording r: case['data'] maps a recording to the KEYS its data extractor yields
+    ('o': of, 'a', 'b'; default 'o'), every value is the recording's own id"""
+    spec = (data or {}).get(r, 'o')
+    return dict(({'o': 'of'}.get(k, k), r) for k in spec)
+
+
+def stages(sim, data=None):
+    """player, result extractor, comparison data extractor and comparator of a run (behaviours looked up in sim)"""
+    def player(r):
+        b = sim.beh(r)
+        w = sim.worker
+        if w is not None:
+            w.playing = r
+        if b == 'player_raises':
+            raise ValueError('boom-player')
+        if b in ('exit0', 'exit1'):
+            raise SystemExit(int(b[4:]))
+        if b in ('hang', 'hang_deaf'):
+            if w is not None:
+                w.deaf = (b == 'hang_deaf')
+            raise fake_mp.WorkerHang()
+        return PB(r)
+
+    def extractor(outs):
+        kind, r = outs[0]
+        if sim.beh(r) == 'extractor_raises':
+            raise ValueError('boom-extractor')
+        return (kind, r)
+
+    def data_extractor(recording):
+        return data_for(data, recording.id)
+
+    def comparator(rec, play, **given):
+        r = rec[1]
+        b = sim.beh(r)
+        # the verdict depends on the comparison data: it must be exactly what the extractor gave for THIS recording
+        if given != data_for(data, r) or play[1] != r:
+            return ComparatorResult(EqualityStatus.Failed, 'mixed-up-inputs')
+        if b == 'comparator_raises':
+            raise ValueError('boom-comparator')
+        if b.startswith('bare:'):
+            return EqualityStatus[b[5:]]
+        shaped, verdict = shaped_verdict(b, r)
+        if shaped:
+            return verdict
+        if b == 'different':
+            return ComparatorResult(EqualityStatus.Different, 'cmp')
+        return ComparatorResult(EqualityStatus.Equal, 'cmp')
+
+    return player, extractor, data_extractor, comparator
+
+
+def run_once(ids, beh, dedicated, rate, timeout, keep, consume, data=None):
     sim = fake_mp.Sim(dict((rid(int(k)), v) for k, v in beh.items()))
     restore = fake_mp.install(eqmod, sim)
     try:
-        def player(r):
-            b = sim.beh(r)
-            w = sim.worker
-            if w is not None:
-                w.playing = r
-            if b == 'player_raises':
-                raise ValueError('boom-player')
-            if b in ('exit0', 'exit1'):
-                raise SystemExit(int(b[4:]))
-            if b in ('hang', 'hang_deaf'):
-                if w is not None:
-                    w.deaf = (b == 'hang_deaf')
-                raise fake_mp.WorkerHang()
-            return PB(r)
-
-        def extractor(outs):
-            kind, r = outs[0]
-            if sim.beh(r) == 'extractor_raises':
-                raise ValueError('boom-extractor')
-            return (kind, r)
-
-        def data_extractor(recording):
-            return {'of': recording.id}
-
-        def comparator(rec, play, of=None):
-            r = rec[1]
-            b = sim.beh(r)
-            if of != r or play[1] != r:
-                return ComparatorResult(EqualityStatus.Failed, 'mixed-up-inputs')
-            if b == 'comparator_raises':
-                raise ValueError('boom-comparator')
-            if b.startswith('bare:'):
-                return EqualityStatus[b[5:]]
-            shaped, verdict = shaped_verdict(b, r)
-            if shaped:
-                return verdict
-            if b == 'different':
-                return ComparatorResult(EqualityStatus.Different, 'cmp')
-            return ComparatorResult(EqualityStatus.Equal, 'cmp')
+        player, extractor, data_extractor, comparator = stages(
+            sim, dict((rid(int(k)), v) for k, v in (data or {}).items()))
 
         mode = consume[0]
         n = consume[1] if len(consume) > 1 else None
@@ -257,26 +273,263 @@ def run_once(ids, beh, dedicated, rate, timeout, keep, consume):
         restore()
 
 
+class _Tape(object):
+    """what PlaybackStudio needs of a tape recorder: the category of a recording id and `play`"""
+
+    def __init__(self, category_of, player):
+        self.tape_cassette = types.SimpleNamespace(extract_recording_category=lambda r: category_of[r])
+        self._player = player
+
+    def play(self, recording_id, playback_function):
+        return self._player(recording_id)
+
+
+class _Run(object):
+    """one comparison run of a multi-run case, advanced one step at a time"""
+
+    def __init__(self, k, spec):
+        self.k = k
+        self.ids = spec['ids']
+        c = spec.get('consume', ['full'])
+        self.mode, self.n = c[0], (c[1] if len(c) > 1 else None)
+        self.gen = self.eq = None
+        self.out, self.yields = [], 0
+        self.done, self.outcome = False, None
+        self.before = self.after = None
+        self.ended_at_round = None
+
+    def id_source(self):
+        for k, i in enumerate(self.ids):
+            if self.mode == 'iter_raises' and k == self.n:
+                raise IdSourceError()
+            yield rid(i)
+        if self.mode == 'iter_raises' and self.n >= len(self.ids):
+            raise IdSourceError()
+
+    def end(self, outcome):
+        self.done, self.outcome = True, outcome
+        self.gen = None
+        gc.collect()     # a dropped, suspended generator is closed by its finaliser (runs the finally block)
+
+    def step(self):
+        if self.mode == 'raise' and self.n == 0:
+            return self.end('consumer-raised')      # generator created and dropped before the first next()
+        if self.mode == 'close' and self.yields >= self.n:
+            self.gen.close()
+            return self.end('closed')
+        try:
+            self.out.append(proj(next(self.gen)))
+        except StopIteration:
+            return self.end('closed' if self.mode == 'close' else 'completed')
+        except IdSourceError:
+            return self.end('iter-raised')
+        self.yields += 1
+        if self.mode == 'raise' and self.yields == self.n:
+            return self.end('consumer-raised')
+
+
+def run_multi(case):
+    """several comparison runs alive in ONE (simulated) process: equalizers built directly or by one PlaybackStudio
+    (one generator per category, as `PlaybackStudio.play()` returns them), advanced in the order of case['schedule']
+    (run indices; what is left when the schedule ends is finished run after run).  Observed per run, in the shape of
+    the single-run observables, with worker ordinals local to the run."""
+    specs = case['runs']
+    beh, data = {}, {}
+    for sp in specs:
+        beh.update((rid(int(k)), v) for k, v in sp['beh'].items())
+        data.update((rid(int(k)), v) for k, v in (sp.get('data') or {}).items())
+    sim = fake_mp.Sim(beh)
+    sim.several_runs = True
+    restore = fake_mp.install(eqmod, sim)
+    try:
+        player, extractor, data_extractor, comparator = stages(sim, data)
+        cfg = CompareExecutionConfig(
+            keep_results_in_comparison=case['keep'], compare_in_dedicated_process=case['dedicated'],
+            compare_process_recycle_rate=case['rate'], compare_process_timeout=case['timeout'])
+        runs = [_Run(k, sp) for k, sp in enumerate(specs)]
+        if case.get('via') == 'studio':
+            from playback.studio.studio import PlaybackStudio
+            category_of = dict((rid(i), 'c%02d' % r.k) for r in runs for i in r.ids)
+            tuning = types.SimpleNamespace(playback_function=None, result_extractor=extractor, comparator=comparator,
+                                           comparison_data_extractor=data_extractor)
+            tuner = types.SimpleNamespace(create_category_tuning=lambda category: tuning)
+            studio = PlaybackStudio([], tuner, _Tape(category_of, player),
+                                    recording_ids=[rid(i) for r in runs for i in r.ids], compare_execution_config=cfg)
+            del cfg      # the studio was given the configuration: nobody else holds on to it
+            gens = studio.play()
+            for r in runs:
+                r.gen = gens.get('c%02d' % r.k)
+                frame = getattr(r.gen, 'gi_frame', None)
+                r.eq = frame.f_locals.get('self') if frame is not None else None
+            del gens, frame      # the runs hold the only references: dropping one finalises the generator
+        else:
+            for r in runs:
+                r.eq = Equalizer(r.id_source(), player, extractor, comparator, comparison_data_extractor=data_extractor,
+                                 compare_execution_config=cfg)
+                r.gen = r.eq.run_comparison()
+        for r in runs:
+            c = getattr(r.eq, 'compare_execution_config', None)
+            r.cfg_seen = None if c is None else [getattr(c, 'keep_results_in_comparison', None),
+                                                 getattr(c, 'compare_in_dedicated_process', None),
+                                                 getattr(c, 'compare_process_recycle_rate', None),
+                                                 getattr(c, 'compare_process_timeout', None)]
+
+        def mine(r):
+            return [p for p in sim.procs if p.owner is r.eq]
+
+        def states(r):
+            return [p.state_name() for p in mine(r)]
+
+        def snapshot(r):
+            ev = getattr(r.eq, '_terminate_process', None)
+            tq = getattr(r.eq, '_compare_tasks', None)
+            rq = getattr(r.eq, '_compare_results', None)
+            return dict(states=states(r), term=bool(ev.flag) if hasattr(ev, 'flag') else None,
+                        left=[len(getattr(tq, 'items', [])), len(getattr(rq, 'items', []))],
+                        lock=bool(getattr(tq, 'poisoned', False)), round=len(sim.polls_rounds))
+
+        # a "round" = every live worker of the process had a turn (the parent blocked in a get)
+        sim.polls_rounds = []
+        _turn_all = sim.turn_all
+
+        def turn_all():
+            _turn_all()
+            sim.polls_rounds.append(1)
+        sim.turn_all = turn_all
+
+        stuck = None
+
+        def advance(r):
+            r.step()
+            if r.done:
+                r.before = snapshot(r)
+            # a run that has ended: what its workers are once they all had their next poll
+            for q in runs:
+                if q.done and q.after is None and q is not r and len(sim.polls_rounds) > q.before['round']:
+                    q.after = states(q)
+
+        try:
+            order = [runs[k] for k in case.get('schedule', []) if k < len(runs)] + \
+                    [r for r in runs for _ in range(len(r.ids) + 2)]
+            for r in order:
+                if r.gen is None and not r.done:
+                    r.end('no-generator')
+                    r.before = snapshot(r)
+                if not r.done:
+                    stuck = r
+                    advance(r)
+                    if sim.frozen is not None:      # blocked for ever inside the finaliser of a dropped generator
+                        sim.why = sim.why or 'in the finally block of the dropped generator'
+                        r.outcome = 'deadlock'
+                        break
+                    stuck = None
+        except fake_mp.SimDeadlock as ex:
+            sim.why = sim.why or str(ex)
+        except (SystemExit, fake_mp.WorkerHang, Exception) as ex:      # pylint: disable=broad-except
+            stuck.outcome = 'abort-exit' if isinstance(ex, SystemExit) else \
+                'blocks' if isinstance(ex, fake_mp.WorkerHang) else 'escaped:' + type(ex).__name__
+            sim.why = sim.why or str(ex)[:200]
+        for r in runs:
+            r.gen = None
+        gc.collect()
+        if sim.frozen is not None and stuck is None:
+            stuck = [r for r in runs if not r.done or r.before is None][:1]
+            stuck = stuck[0] if stuck else runs[-1]
+        if stuck is not None:
+            stuck.outcome = stuck.outcome or 'deadlock'
+            for r in runs:
+                if r.before is None:
+                    r.before = snapshot(r)
+                    r.outcome = r.outcome or 'not-finished'
+        else:
+            sim.settle()
+        final = sim.snapshot()
+        out = []
+        for r in runs:
+            procs = mine(r)
+            local = dict((p.ordinal, j) for j, p in enumerate(procs))
+            after = r.after if (r.after is not None and len(r.after) == len(procs)) else states(r)
+            s0 = r.before['states'] + ['unborn'] * len(procs)
+            workers = [[j, [unrid(x) for x in p.served], s0[j], after[j]] for j, p in enumerate(procs)]
+            own = set(rid(i) for i in r.ids)
+            out.append(dict(cmps=r.out, outcome=r.outcome, workers=workers,
+                            polls=[n for n, x in zip(final['polls'], sim.poll_ids) if x in own],
+                            events=[[e[0], local[e[1]]] for e in final['events'] if e[1] in local],
+                            left=r.before['left'], lock=r.before['lock'], term=r.before['term'],
+                            max_live=sim.max_live_by_owner.get(id(r.eq), 0) if r.eq is not None else 0,
+                            cfg_seen=r.cfg_seen, still_alive=[j for j, p in enumerate(procs) if p.is_alive_()]))
+        obs = dict(runs=out, why=sim.why, max_live=final['max_live'])
+    finally:
+        restore()
+    # every run alone (same configuration, same consumption)
+    obs['alone'] = []
+    for sp in specs:
+        o = run_once(sp['ids'], sp['beh'], case['dedicated'], case['rate'], case['timeout'], case['keep'],
+                     consume=sp.get('consume', ['full']), data=sp.get('data'))
+        obs['alone'].append(dict((k, o[k]) for k in ALONE_KEYS))
+    return obs
+
+
+ALONE_KEYS = ['cmps', 'outcome', 'workers', 'polls', 'events', 'left', 'lock', 'term', 'max_live']
+
 _alone = {}
 
 
+class CaseWatchdog(BaseException):
+    """the simulated case is still running after CASE_CPU seconds of processor time / CASE_WALL seconds of wall time
+    (a simulated run takes milliseconds)"""
+
+
+CASE_CPU = 20.0       # processor time of this process (ITIMER_PROF): a loop that spins; independent of the machine's load
+CASE_WALL = 300.0     # wall time (ITIMER_REAL): something that blocks in a real system call
+
+
 def run_case(case):
+    """no case may hang the check, whatever the code under test does: real-process scripts carry their own SIGALRM
+    watchdog, every simulated case runs under these two"""
     if case.get('kind') == 'real':
         import equalizer_real
         return equalizer_real.run_case(case)
+    import signal
+    fired = []
+
+    def on_alarm(signum, frame):
+        fired.append('%d s of processor time' % CASE_CPU if signum == signal.SIGPROF else '%d s of wall time' % CASE_WALL)
+        raise CaseWatchdog()
+    old = [signal.signal(signal.SIGALRM, on_alarm), signal.signal(signal.SIGPROF, on_alarm)]
+    signal.setitimer(signal.ITIMER_REAL, CASE_WALL, 1.0)
+    signal.setitimer(signal.ITIMER_PROF, CASE_CPU, 1.0)
+    try:
+        return run_case_(case)
+    except CaseWatchdog:
+        return {'watchdog': 'the simulated run did not end within %s: parent or worker loops for ever without blocking '
+                            'in a multiprocessing call of the simulator' % fired[0]}
+    finally:
+        signal.setitimer(signal.ITIMER_REAL, 0)
+        signal.setitimer(signal.ITIMER_PROF, 0)
+        signal.signal(signal.SIGALRM, old[0])
+        signal.signal(signal.SIGPROF, old[1])
+        gc.collect()
+
+
+def run_case_(case):
+    if case.get('kind') == 'multi':
+        return run_multi(case)
     ids, beh = case['ids'], case['beh']
+    data = case.get('data') or {}
     cfg = (case['dedicated'], case['rate'], case['timeout'], case['keep'])
-    obs = run_once(ids, beh, *cfg, consume=case.get('consume', ['full']))
+    obs = run_once(ids, beh, *cfg, consume=case.get('consume', ['full']), data=data)
     # every recording played alone (same mode and configuration), and the whole sequence in the other mode
     alone = {}
     for i in sorted(set(ids)):
-        key = (i, beh.get(str(i), 'equal')) + cfg
+        key = (i, beh.get(str(i), 'equal'), data.get(str(i), 'o')) + cfg
         if key not in _alone:
-            o = run_once([i], {str(i): beh.get(str(i), 'equal')}, *cfg, consume=['full'])
+            o = run_once([i], {str(i): beh.get(str(i), 'equal')}, *cfg, consume=['full'],
+                         data={str(i): data.get(str(i), 'o')})
             _alone[key] = [o['cmps'], o['outcome']]
         alone[str(i)] = _alone[key]
     obs['alone'] = alone
-    o = run_once(ids, beh, not case['dedicated'], case['rate'], case['timeout'], case['keep'], consume=['full'])
+    o = run_once(ids, beh, not case['dedicated'], case['rate'], case['timeout'], case['keep'], consume=['full'], data=data)
     obs['other_mode'] = [o['cmps'], o['outcome']]
     return obs
 
